@@ -34,6 +34,7 @@ class Gen:
         self.lits = True
         self.safe_else = False
         self.junk_brackets = True
+        self.pp_split = False
         self.max_depth = max_depth
         self.nvars = 0
         self.labels = 0
@@ -186,6 +187,16 @@ class Gen:
             if ty[0][1] != 'const':
                 vars_.append(name)
             return t
+        if k == 15 and self.pp and self.pp_split:
+            # a conditional group that ends between a keyword and the brace of its block (`else` / `do`, then `#endif`, then `{`)
+            end = self.directive([P('#'), I('endif')])
+            if self.coin():
+                return self.directive([P('#'), K('if'), ('num', '1')]) + [('stmt', depth, 'stmt'), K('if'), P('(')] + self.expr(vars_) + \
+                    [P(')'), P('{')] + self.block_items(vars_, depth + 1, in_loop, in_switch) + [('stmt', depth, 'close'), P('}'), K('else')] + end + \
+                    [('stmt', depth, 'stmt'), P('{')] + self.block_items(vars_, depth + 1, in_loop, in_switch) + [('stmt', depth, 'close'), P('}')]
+            return self.directive([P('#'), I('ifndef'), I('NOT_DEFINED_ANYWHERE')]) + [('stmt', depth, 'stmt'), K('do')] + end + \
+                [('stmt', depth, 'stmt'), P('{')] + self.block_items(vars_, depth + 1, True, in_switch) + \
+                [('stmt', depth, 'close'), P('}'), K('while'), P('(')] + self.expr(vars_) + [P(')'), P(';')]
         return self.simple_stmt(vars_)
 
     def directive(self, toks):
@@ -274,11 +285,12 @@ PRELUDE = [
 
 
 @st.composite
-def c_program(draw, max_depth=4, pp=True, max_funcs=3, lits=True, safe_else=False, junk_brackets=True):
+def c_program(draw, max_depth=4, pp=True, max_funcs=3, lits=True, safe_else=False, junk_brackets=True, pp_split=False):
     g = Gen(draw, draw(st.integers(1, max_depth)), pp)
     g.lits = lits
     g.safe_else = safe_else
     g.junk_brackets = junk_brackets
+    g.pp_split = pp_split
     toks = []
     if pp:
         for m in MACROS[:5]:
@@ -344,7 +356,14 @@ def brace_shapes_ml(max_levels=2):
             yield (name + '|ml' + ''.join(map(str, mask)), t)
 
 
-def brace_shapes(max_levels=3):
+def brace_shapes_cmt(max_levels=2):
+    """like brace_shapes, with a `//` comment behind every header / `else` whose body has no braces and a block comment in front of
+    that body on the next line (the position at which a brace that is added must not end up inside the `//` comment)"""
+    for name, src in brace_shapes(max_levels, sep=' // c1\n        /* c2 */ '):
+        yield (name + '|cmt', src)
+
+
+def brace_shapes(max_levels=3, sep=' '):
     """Small complete C programs enumerating every nesting of up to `max_levels` compound headers (if / for / while / else-less if),
     each level braced or not, around an innermost `if (p) x = 1;` or plain statement, followed (or not) by `else`: the shapes on which
     brace removal / addition can re-bind a dangling else.  Yields (name, source text)."""
@@ -358,9 +377,9 @@ def brace_shapes(max_levels=3):
                         body = {'if': 'if (p[0]) x = 1;', 'stmt': 'x = 1;', 'ifelse': 'if (p[0]) x = 1; else x = 3;'}[inner]
                         for k, br, lvl in reversed(list(zip(kinds, braces, range(n)))):
                             h = heads[k] % (lvl + 1)
-                            body = '%s { %s }' % (h, body) if br else '%s %s' % (h, body)
-                        src = 'int f(int a, int b, int *p)\n{\n    int x = 0, i = 0;\n    if (a) %s%s\n    return x + i + b;\n}\n' % (
-                            ('{ %s }' % body) if (n and braces[0] and False) else body, ' else x = 2;' if tail == 'else' else '')
+                            body = '%s { %s }' % (h, body) if br else '%s%s%s' % (h, sep, body)
+                        src = 'int f(int a, int b, int *p)\n{\n    int x = 0, i = 0;\n    if (a)%s%s%s\n    return x + i + b;\n}\n' % (
+                            sep, ('{ %s }' % body) if (n and braces[0] and False) else body, (' else%sx = 2;' % sep) if tail == 'else' else '')
                         yield ('%s|%s|%s|%s' % ('-'.join(kinds) or 'flat', ''.join(map(str, braces)), inner, tail), src)
 
 
@@ -405,6 +424,32 @@ def paren_shapes(per_program=10):
         src = 'extern int g(int, int);\nint f(int a, int b, int *p)\n{\n    int c = 0;\n    int arr[4] = { 1, 2 };\n%s\n    return c + arr[0];\n}\n' % '\n'.join(lines)
         yield ('paren-shapes-%03d' % prog, src)
         prog += 1
+
+
+# ------------------------------------------------------------------------------------------------ enumerated conditional groups
+def ifdef_shapes():
+    """Small complete C programs enumerating conditional groups: opener (#if / #ifdef / #ifndef, plain or complex condition), with or
+    without a block or line comment behind the directive, body of 1 / 3 / 6 lines, with / without #else and #elif, nested or not -
+    the shapes on which the options that append a comment to #else / #endif act.  Yields (name, source text)."""
+    import itertools
+    openers = [('ifdef', '#ifdef FOO'), ('ifndef', '#ifndef FOO'), ('if', '#if defined(FOO) && (BAR > 2)'), ('if1', '#if 1'), ('ifsp', '#  if FOO')]
+    trails = [('none', ''), ('blk', ' /* feature */'), ('line', ' // feature'), ('blk2', ' /* a */ /* b */')]
+    bodies = [1, 3, 6]
+    tails = ['endif', 'else', 'elif-else']
+    n = 0
+    for (on, o), (tn, t), nb, tail, nested in itertools.product(openers, trails, bodies, tails, (False, True)):
+        n += 1
+        if (n * 7) % 5 not in (0, 1) and not (tn == 'blk' and nb == 3):       # a covering sample; every blk x 3-line shape is kept
+            continue
+        body = ''.join('    x += %d;\n' % (i + 1) for i in range(nb))
+        inner = ('#ifdef INNER%s\n    x ^= 1;\n    x ^= 2;\n#else%s\n    x ^= 3;\n    x ^= 4;\n#endif\n' % (t, t)) if nested else ''
+        src = 'int f(int x)\n{\n%s%s\n%s%s' % (o, t, body, inner)
+        if tail == 'elif-else':
+            src += '#elif BAR%s\n%s' % (t, body.replace('+=', '-='))
+        if tail != 'endif':
+            src += '#else%s\n%s' % (t, body.replace('+=', '*='))
+        src += '#endif%s\n    return x;\n}\n' % ('' if tn == 'line' else t)
+        yield ('ifdef|%s|%s|%d|%s|%s' % (on, tn, nb, tail, 'nested' if nested else 'flat'), src)
 
 
 # ------------------------------------------------------------------------------------------------ fixed programs
